@@ -114,6 +114,14 @@ def directions_leg(ck):
             if worst != r['exit']:
                 ck.violation('status-vs-json-notes role=%s' % c['role'], 'exit %s but the notes of the JSON report imply %s' % (r['exit'], worst), replay)
                 continue
+        else:
+            # ... and whatever the report shows for either direction, the status is the worst tag it shows (a finding printed is a finding counted)
+            out = report.strip_ansi(r['stdout'])
+            lv = {t for t in ('fail', 'warn') if ('[%s]' % t) in out}
+            worst = 3 if 'fail' in lv else (2 if 'warn' in lv else 0)
+            if worst != r['exit']:
+                ck.violation('status-vs-tags scenario=directions role=%s' % c['role'], 'exit %s but the tagged findings the report shows imply %s' % (r['exit'], worst), replay)
+                continue
         ck.cov['traces_validated_against_impl'] += 1
         ck.nontrivial(('directions', c['id'], o))
 
@@ -156,6 +164,34 @@ def json_targets_leg(ck):
         else:
             ck.cov['traces_validated_against_impl'] += 1
             ck.nontrivial(('json-targets', lst, threads))
+
+
+def unreachable_targets_leg(ck):
+    """The incomplete-audit clause over a target list: a listed target that cannot be reached (refused, unknown name, no answer to the
+    connection attempt) is an audit that could not be made - the run ends with the connection-error status whatever the other targets
+    are rated, in text and with -j alike (what stdout looks like in that case is C08's matter, not judged here)."""
+    from checks import multi, c08
+    H = c08.healthy()
+    lists = [(('refused',),), (('server', H['good']), ('refused',)), (('refused',), ('server', H['fail'])), (('unresolvable',), ('server', H['warn'])),
+             (('server', H['good']), ('timeout',)), (('refused',), ('unresolvable',)), (('server', H['warn']), ('refused',), ('server', H['good']))]
+    scs, meta = [], []
+    for lst in lists:
+        for threads in (1, len(lst)):
+            for js in (False, True):
+                sc, labels = multi.scenario(list(lst), threads, None, json_out=js)
+                scs.append(sc)
+                meta.append(([t[0] if t[0] != 'server' else 'healthy' for t in lst], threads, js))
+    for (lst, threads, js), sc, r in zip(meta, scs, runner.run_many(scs)):
+        ck.evaluated()
+        if r.get('harness_error') or r.get('hang'):
+            raise common.Machinery('target-list run failed: %r' % (r.get('harness_error') or 'hang'))
+        replay = {'targets': lst, 'threads': threads, 'json': js, 'argv': sc['argv'], 'exit': r['exit'], 'stdout': r['stdout'][-2000:]}
+        if r['exit'] != 1:
+            ck.violation('unreachable-target-in-a-list-not-a-connection-error view=%s' % ('json' if js else 'text'),
+                         'targets %r, %d thread(s), %s: exit status %s; a listed target could not be reached, the run is a connection error (1)' % (lst, threads, '-j' if js else 'text', r['exit']), replay)
+        else:
+            ck.cov['traces_validated_against_impl'] += 1
+            ck.nontrivial(('unreachable-targets', tuple(lst), threads, js))
 
 
 def other_sections_leg(ck):
@@ -315,6 +351,7 @@ def run(tier):
     directions_leg(ck)
     other_sections_leg(ck)
     json_targets_leg(ck)
+    unreachable_targets_leg(ck)
     entry_leg(ck, tier, cases, expected, rnd)
     for modname, fn in (('checks.c09', 'c02_leg'), ('checks.c06', 'c02_leg')):
         try:
